@@ -52,6 +52,25 @@ FORMS = {
     "[pcr]":    ("[{n},PCR]", True, "idx"),
 }
 
+# operand texts that are NOT in the grammar (unknown / missing index register, too many + or -): must be rejected with a
+# diagnostic (C12) and must not raise an internal error (C13)
+BAD_FORMS = {
+    "bad/n,Z":    ("{n},Z", True, None),
+    "bad/n,PC":   ("{n},PC", True, None),
+    "bad/n,":     ("{n},", True, None),
+    "bad/[n,Z]":  ("[{n},Z]", True, None),
+    "bad/,W":     (",W", False, None),
+    "bad/,":      (",", False, None),
+    "bad/,X+++":  (",X+++", False, None),
+    "bad/,---X":  (",---X", False, None),
+    "bad/,-X+":   (",-X+", False, None),
+    "bad/A,":     ("A,", False, None),
+    "bad/B,Q":    ("B,Q", False, None),
+    "bad/[,W]":   ("[,W]", False, None),
+    "bad/[A,]":   ("[A,]", False, None),
+}
+FORMS.update(BAD_FORMS)
+
 KIND_OF = {"idx0": "off0", "idx0bare": "off0", "idxA": "A", "idxB": "B", "idxD": "D", "inc1": "inc1", "inc2": "inc2",
            "dec1": "dec1", "dec2": "dec2", "[idx0]": "off0", "[idxA]": "A", "[idxB]": "B", "[idxD]": "D",
            "[inc2]": "inc2", "[dec2]": "dec2"}
@@ -79,8 +98,10 @@ class AsmForms:
                     continue      # these operand texts are register lists / pairs for the stack and transfer instructions (asm_special)
                 for r in regs:
                     sps = spell if lit else [None]
+                    if f in BAD_FORMS and lit:
+                        sps = ["dec2"] if tier != "thorough" else ["dec2", "hex4", "neg1"]
                     for sp in sps:
-                        for via in ((None, "equ") if lit else (None,)):
+                        for via in ((None, "equ") if (lit and f not in BAD_FORMS) else (None,)):
                             if via == "equ" and tier != "thorough" and sp not in ("dec2", "hex4", "neg1", "hex2"):
                                 continue
                             if tier != "thorough" and r in ("Y", "U") and sp not in (None, "dec2"):
@@ -134,15 +155,26 @@ def _split(t):
     return out
 
 
+VCLASSES = ((-32768, -129), (-128, -17), (-16, -1), (0, 0), (1, 15), (16, 127), (128, 255), (256, 32767),
+            (32768, 65535), (65536, 10 ** 9), (-10 ** 9, -32769))
+
+
 def vclass(v):
     """value class label used in failure signatures (native mode only)"""
     if v is None:
         return "-"
-    for lo, hi in ((-32768, -129), (-128, -17), (-16, -1), (0, 0), (1, 15), (16, 127), (128, 255), (256, 32767),
-                   (32768, 65535), (65536, 10 ** 9), (-10 ** 9, -32769)):
+    for lo, hi in VCLASSES:
         if lo <= v <= hi:
             return "%d..%d" % (lo, hi)
     return "?"
+
+
+def vsplit(v):
+    """the value classes as input classes of a symbolic value: a refuted obligation is reported once per class in which it
+    can fail, so the failure signatures (and the known-finding patterns over them) are independent of the solver's model"""
+    if v is None or isinstance(v, int):
+        return None
+    return [("%d..%d" % (lo, hi), (v >= lo) & (v <= hi)) for lo, hi in VCLASSES]
 
 
 def validity(m, f, val):
@@ -183,6 +215,37 @@ def validity(m, f, val):
     raise ValueError(mode)
 
 
+def invalid_reason(m, f, val):
+    """why a statement is invalid (native mode: concrete val) -- a feature of the failure signatures, so that a known finding
+    about one kind of invalid input does not cover another kind"""
+    tmpl, lit, mode = FORMS[f]
+    if mode is None:
+        return "form"
+    if mode == "inh":
+        return "-" if has_mode(m, "inh") else "nomode"
+    if mode == "imm":
+        w = mc6809.imm_width(m)
+        if w is None:
+            return "nomode"
+        lo, hi = (-128, 255) if w == 1 else (-32768, 65535)
+        return ("hi%d" % (8 * w)) if val > hi else ("lo%d" % (8 * w)) if val < lo else "-"
+    if mode == "mem":
+        if not (has_mode(m, "dir") or has_mode(m, "ext")):
+            return "nomode"
+        return "negaddr" if val < 0 else "hi16" if val > 65535 else "-"
+    if mode in ("dir", "ext"):
+        if not has_mode(m, mode):
+            return "nomode"
+        return "negaddr" if val < 0 else "hi8" if (mode == "dir" and val > 255) else "hi16" if val > 65535 else "-"
+    if not has_mode(m, "idx"):
+        return "nomode"
+    if val is None:
+        return "-"
+    if f == "ind[]":
+        return "negaddr" if val < 0 else "hi16" if val > 65535 else "-"
+    return "lo16" if val < -32768 else "hi16" if val > 65535 else "-"
+
+
 def _b(x):
     """bool|SymBool -> python bool (forks symbolically)"""
     return bool(x)
@@ -191,51 +254,52 @@ def _b(x):
 def check_statement(env, run, idx, m, f, r, val, props01=("C01",)):
     """the clauses for statement `idx` of `run` being `m <form f>`"""
     native = env.mode == "native"
+    sp = vsplit(val)
     vc = (lambda: vclass(val)) if native else None
 
     def sig(what):
-        return (lambda: "%s:%s:%s:val=%s:%s" % (f, m, what, vclass(val), _shape(run, idx))) if native else None
+        return (lambda: "%s:%s:%s:val=%s:inv=%s:%s" % (f, m, what, vclass(val), invalid_reason(m, f, val), _shape(run, idx))) if native else None
 
     if run.status == "hang":
-        env.fail("C13:terminates", ("C13",), sig("hang"))
+        env.fail("C13:terminates", ("C13",), sig("hang"), split=sp)
         return
     env.ensure("C13:terminates", True, ("C13",))
     if run.status == "escape":
-        env.fail("C13:no-internal-error", ("C13",), sig("escape:%s" % run.exc_class))
+        env.fail("C13:no-internal-error", ("C13",), sig("escape:%s" % run.exc_class), split=sp)
         return
     env.ensure("C13:no-internal-error", True, ("C13",))
     valid, mode = validity(m, f, val)
     valid = _b(valid)
     if run.status == "diag":
         if valid:
-            env.fail("C01:accepted", ("C01",), sig("rejected:%s" % run.exc_class))
+            env.fail("C01:accepted", ("C01",), sig("rejected:%s" % run.exc_class), split=sp)
         else:
             env.ensure("C12:rejected", True, ("C12",))
         return
     st = run.stmts[idx]
     bs = st.bytes
     if not valid:
-        env.fail("C12:rejected", ("C12",), sig("accepted-invalid"))
+        env.fail("C12:rejected", ("C12",), sig("accepted-invalid"), split=sp)
         # still state the weaker well-formedness clause
         d = mc6809.decode(bs)
         ok = d.ok and (d.length == len(bs)) and (d.op in mc6809.names_of(mc6809.canonical(m)) or m in mc6809.names_of(d.op)) \
             and _b(st.size == len(bs))
-        env.ensure("C12:wellformed", ok, ("C12",), sig("malformed"))
+        env.ensure("C12:wellformed", ok, ("C12",), sig("malformed"), split=sp)
         return
     env.ensure("C01:accepted", True, ("C01",))
-    env.ensure("C02:size", st.size == len(bs), ("C02", "C12"), sig("size=%s,len=%d" % (st.size if native else "?", len(bs))))
+    env.ensure("C02:size", st.size == len(bs), ("C02", "C12"), sig("size=%s,len=%d" % (st.size if native else "?", len(bs))), split=sp)
     d = mc6809.decode(bs)
     if not d.ok:
-        env.fail("C01:decodes", ("C01", "C12"), sig("undecodable:%s" % d.why))
+        env.fail("C01:decodes", ("C01", "C12"), sig("undecodable:%s" % d.why), split=sp)
         return
     if d.length != len(bs):
-        env.fail("C01:decodes", ("C01", "C12"), sig("decoded-length=%d,emitted=%d" % (d.length, len(bs))))
+        env.fail("C01:decodes", ("C01", "C12"), sig("decoded-length=%d,emitted=%d" % (d.length, len(bs))), split=sp)
         return
     if not (m in mc6809.names_of(d.op)):
-        env.fail("C01:decodes", ("C01", "C12"), sig("operation=%s" % d.op))
+        env.fail("C01:decodes", ("C01", "C12"), sig("operation=%s" % d.op), split=sp)
         return
     ok = meaning_matches(d, m, f, r, val)
-    env.ensure("C01:decodes", ok, ("C01",), sig("meaning:%s" % dsum(d)))
+    env.ensure("C01:decodes", ok, ("C01",), sig("meaning:%s" % dsum(d)), split=sp)
 
 
 def dsum(d):
